@@ -107,7 +107,7 @@ _opt_enc = st.one_of(st.none(), st.none(), st.sampled_from(FOREIGN_POOL))
 
 @st.composite
 def docs(draw, allow_unencoded=True, allow_nonobject_meta=False,
-         max_changes=3, max_files=3):
+         max_changes=3, max_files=3, meta_min_size=0):
     crlf = draw(st.integers(0, 3)) == 0
     main_enc = draw(st.one_of(st.sampled_from(FOREIGN_POOL),
                               st.sampled_from(FOREIGN_POOL),
@@ -152,7 +152,7 @@ def docs(draw, allow_unencoded=True, allow_nonobject_meta=False,
         own = draw(_opt_enc)
         eff = own if own is not None else enc_stack[-1]
         raw_codec = eff or 'utf-8'
-        value = draw(gen.json_objects(max_leaves=5, min_size=0))
+        value = draw(gen.json_objects(max_leaves=5, min_size=meta_min_size))
 
         if allow_nonobject_meta and draw(st.integers(0, 9)) == 0:
             value = draw(st.sampled_from([[1, 2], 'str', 5, None, True]))
